@@ -41,6 +41,10 @@ CLAIMS['C15'] = ('Bounded symbolic model checking of the real Tolerancing / Pert
     'rows = operands of (nominal + recorded perturbation [+ recorded compensation]), nominal perturbation => nominal values, lens nominal after run() and reset(), sampler cycling and seeded reproducibility; '
     'operands are uninterpreted functions, sampler draws and compensator evaluation points symbolic; all obligations SMT queries decided unsat.',
     'numpy RNG stubbed (seeded = function of seed and draw index); scipy stubbed by contract; pandas.DataFrame replaced by a list in symbolic mode; <=2 perturbations x <=3 trials')
+CLAIMS['C13'] = ('Bounded symbolic model checking of frame conditions on the real code: caller-owned arrays keep their values across trace/trace_generic (symbolic vignetting), '
+    'prescription snapshot and to_dict() unchanged by paraxial / aberration / trace queries, repeated query = same terms, third call of (A,B,A) equals the first (no stale state or caches), '
+    'ray 0 of a 2-ray batch = the 1-ray trace, SpotDiagram queries leave the stored data untouched (uninterpreted tracer). Equality of symbolic result terms is decided by the solver.',
+    'what is decided is that the second call computes the same real function of the same state; bit-identity of floats is not claimed; Newton-Raphson batch coupling only in the thorough tier; sequences of <=3 calls, <=3 rays')
 NOT_YET = 'check not built yet in this round (work in progress; see DESIGN.md section 6 for the plan)'
 
 props = [json.loads(l) for l in open(os.path.join(ROOT, 'properties.jsonl'))]
